@@ -29,7 +29,8 @@ type Cfg struct {
 	DotNot      bool   `json:"dot_notation,omitempty"`
 	FieldSep    string `json:"field_sep,omitempty"`
 	UseNumber   bool   `json:"use_number,omitempty"`
-	Toggle      bool   `json:"toggle_forms,omitempty"` // boolean options are switched with the no-argument (toggle) form of their setter
+	CastPerm    int    `json:"cast_setter_order,omitempty"` // index of the order in which the cast setters are called (0 = int, float, bool, nan/inf)
+	Toggle      bool   `json:"toggle_forms,omitempty"`      // boolean options are switched with the no-argument (toggle) form of their setter
 }
 
 func defCfg() Cfg { return Cfg{AttrPrefix: "-", KeyPrefix: "#"} }
@@ -133,17 +134,21 @@ func applyCfg(c Cfg) {
 	if c.EscEnc && !c.EscEncFirst {
 		sw(mxj.XMLEscapeChars, true)
 	}
+	var casts []func()
 	if c.CastInt {
-		sw(mxj.CastValuesToInt, true)
+		casts = append(casts, func() { sw(mxj.CastValuesToInt, true) })
 	}
 	if c.NoFloat {
-		sw(mxj.CastValuesToFloat, false)
+		casts = append(casts, func() { sw(mxj.CastValuesToFloat, false) })
 	}
 	if c.NoBool {
-		sw(mxj.CastValuesToBool, false)
+		casts = append(casts, func() { sw(mxj.CastValuesToBool, false) })
 	}
 	if c.NanInf {
-		sw(mxj.CastNanInf, true)
+		casts = append(casts, func() { sw(mxj.CastNanInf, true) })
+	}
+	for _, i := range nthPerm(len(casts), c.CastPerm) {
+		casts[i]()
 	}
 	if c.CheckValid {
 		sw(mxj.XmlCheckIsValid, true)
@@ -170,4 +175,36 @@ func mustBeDefault(c *Ctx) {
 	if d := stateDiff(); d != "" {
 		c.Broken("options not at defaults after reset: %s", d)
 	}
+}
+
+// nthPerm returns the k-th permutation (lexicographic, k taken modulo n!) of 0..n-1.
+func nthPerm(n, k int) []int {
+	f := 1
+	for i := 2; i <= n; i++ {
+		f *= i
+	}
+	if f > 0 {
+		k %= f
+	}
+	items := make([]int, n)
+	for i := range items {
+		items[i] = i
+	}
+	var out []int
+	for i := n; i >= 1; i-- {
+		f /= i
+		j := k / f
+		k %= f
+		out = append(out, items[j])
+		items = append(items[:j], items[j+1:]...)
+	}
+	return out
+}
+
+func factorial(n int) int {
+	f := 1
+	for i := 2; i <= n; i++ {
+		f *= i
+	}
+	return f
 }
